@@ -275,6 +275,17 @@ make__cim_preprocess_methods__macro! {
                     }
 
                     let elem_phantom_ty = $crate::iter::__get_item_ty(&$iter_var);
+                    $crate::__cim_take_guard!{
+                        (
+                            ($($var)* $($ret_var)?)
+                            ($($callback_macro)*) ($($fixed_arguments)*)
+                            ($label $label)
+                            $next_fn
+                            $allowed_methods
+                        )
+                        ($($var)* $($ret_var)?)
+                        $($args)*
+                    }
                     let $item = if let $crate::__::Some((elem_, next_)) = $iter_var.$next_fn() {
                         $crate::iter::__assert_item_ty(&elem_, elem_phantom_ty);
                         $iter_var = next_;
